@@ -137,9 +137,30 @@ func toNative(fr *frame, v value) any {
 			return out
 		case *types.Pointer:
 			return fmt.Sprintf("%p", x.v)
+		case *types.Map, *types.Struct:
+			return toNative(fr, x.v)
 		}
 		unsupported("fmt argument of type %s", x.t)
 	case []value:
+		var out []any
+		for _, e := range x {
+			out = append(out, toNative(fr, e))
+		}
+		return out
+	case *omap:
+		out := map[string]any{}
+		if x != nil {
+			for _, e := range x.entries {
+				if e.alive {
+					out[fmt.Sprint(toNative(fr, e.key))] = toNative(fr, e.val)
+				}
+			}
+		}
+		return out
+	case structure:
+		if len(x) == 0 {
+			return struct{}{}
+		}
 		var out []any
 		for _, e := range x {
 			out = append(out, toNative(fr, e))
@@ -164,6 +185,36 @@ func mkError(fr *frame, msg string) value {
 		unsupported("fmt.Errorf without package errors in the program")
 	}
 	return call(fr.i, fr, token.NoPos, pkg.Func("New"), []value{msg})
+}
+
+// wrappedArg returns the argument consumed by the %w verb (verbs are counted
+// naively: every % followed by a non-% character consumes one argument).
+func wrappedArg(format string, args []value) *iface {
+	n := 0
+	for k := 0; k+1 < len(format); k++ {
+		if format[k] != '%' {
+			continue
+		}
+		if format[k+1] == '%' {
+			k++
+			continue
+		}
+		j := k + 1
+		for j < len(format) && strings.IndexByte("+-# 0123456789.", format[j]) >= 0 {
+			j++
+		}
+		if j < len(format) && format[j] == 'w' {
+			if n < len(args) {
+				if e, ok := args[n].(iface); ok && e.t != nil {
+					return &e
+				}
+			}
+			return nil
+		}
+		n++
+		k = j
+	}
+	return nil
 }
 
 func fieldIndex(t types.Type, name string) int {
@@ -194,8 +245,21 @@ func init() {
 			return fmt.Sprintln(nativeArgs(fr, args[0])...), true
 		},
 		"fmt.Errorf": func(fr *frame, args []value) (value, bool) {
-			format := strings.ReplaceAll(concreteString(args[0]), "%w", "%v")
-			return mkError(fr, fmt.Sprintf(format, nativeArgs(fr, args[1])...)), true
+			raw := concreteString(args[0])
+			format := strings.ReplaceAll(raw, "%w", "%v")
+			msg := fmt.Sprintf(format, nativeArgs(fr, args[1])...)
+			if strings.Count(raw, "%w") == 1 {
+				// keep the wrapped error reachable through Unwrap: *fmt.wrapError
+				if w := wrappedArg(raw, args[1].([]value)); w != nil {
+					if pkg := fr.i.prog.ImportedPackage("fmt"); pkg != nil {
+						if t := pkg.Type("wrapError"); t != nil {
+							var cell value = structure{msg, *w}
+							return iface{types.NewPointer(t.Type()), &cell}, true
+						}
+					}
+				}
+			}
+			return mkError(fr, msg), true
 		},
 		"fmt.Printf":   printNop,
 		"fmt.Println":  printNop,
